@@ -29,16 +29,15 @@ def base(name):
 def main(argv=None):
     argv = argv or sys.argv[1:]
     prop = argv[0]
-    tier = 'quick'
+    tier = os.environ.get('VERIF_TIER', 'quick')
     if '--tier' in argv:
-        tier = argv[argv.index('--tier') + 1]
-    tier = os.environ.get('VERIF_TIER', tier)
+        tier = argv[argv.index('--tier') + 1]          # the command line wins over the environment
     if tier not in ('quick', 'thorough'):
         tier = 'quick'
     seed = int(os.environ.get('VERIF_SEED', '0') or 0)
     t0 = time.time()
     from specs import registry
-    jobs = registry.jobs_for(prop)
+    jobs = registry.jobs_for(prop, tier) if 'tier' in registry.jobs_for.__code__.co_varnames else registry.jobs_for(prop)
     extra = registry.extra_for(prop, tier, seed) if hasattr(registry, 'extra_for') else []
     if not jobs and not extra:
         print('CHECKER-ERROR property=%s no jobs registered' % prop); return 3
@@ -88,7 +87,9 @@ def main(argv=None):
     witness = [r for r in results if r.get('finding') and findings.get(r['finding'], {}).get('status') == 'known']
     valid = [r for r in required if r['verdict'] == 'valid']
     refuted = [r for r in required if r['verdict'] == 'refuted']
-    undecided += [{'obligation': r['name'], 'reason': r.get('reason', '?')} for r in required if r['verdict'] == 'undecided']
+    undecided += [{'obligation': r['name'], 'reason': r.get('reason', '?')} for r in required if r['verdict'] == 'undecided' and not r.get('exploratory')]
+    exploratory_open = [r['name'] for r in required if r['verdict'] == 'undecided' and r.get('exploratory')]
+    required = [r for r in required if not (r['verdict'] == 'undecided' and r.get('exploratory'))]
     lines = []
     # ---- known findings: witness obligations that are still refuted
     kf_seen = collections.OrderedDict()
@@ -137,7 +138,7 @@ def main(argv=None):
     thorough = {}
     if tier == 'thorough' and not os.environ.get('PYVC_SELFTEST_CHILD'):
         from pyvc import thorough as th
-        thorough = th.run(prop, seed, jobs)
+        thorough = th.run(prop, seed, registry.jobs_for(prop, 'quick'))     # the self-test re-runs the quick jobs on each seeded change
         for e_ in thorough.get('errors', []):
             errors.append(('thorough', e_))
     nreq = len(required)
@@ -163,7 +164,7 @@ def main(argv=None):
             'undecided': undecided[:50], 'known_findings_witnessed': list(kf_seen),
             'bounded_units': bounded, 'samples': samples or [{'note': 'no obligations'}],
             'obligation_names': sorted(names)[:400],
-            'thorough': thorough,
+            'thorough': thorough, 'exploratory_obligations_left_open': sorted(set(base(n_) for n_ in exploratory_open))[:50],
         },
         'assumptions': sorted(assumptions),
         'wall_s': round(time.time() - t0, 2), 'violations': nviol,
